@@ -92,41 +92,44 @@ CLAIMS['C12'] = {
 
 PART = ' PARTIAL (see evidence.partial and DESIGN.md): '
 CLAIMS['C01'] = {
-    'text': ('Theorems seq_block_fresh / seq_targeted_exact / fresh_disjoint_from_allocated: in every sequential history a successful '
-             'allocation returns an aligned in-range block none of whose frames was allocated (hence disjoint from every block handed out '
-             'and not freed), a targeted one exactly the requested frame, and afterwards exactly its frames are additionally allocated.'
+    'text': ('Theorems seq_get_fresh / seq_block_fresh / seq_targeted_exact / fresh_disjoint_from_allocated / fresh_in_range: in every sequential history, '
+             'a block returned by LLFree::get (any path) is aligned, consists of frames that were all free and inside the managed range (hence disjoint '
+             'from every block handed out and not freed), is the target if one was given, and exactly its frames become allocated.'
              + PART + 'the statement over all interleavings is not a theorem; the concurrent part is explored by scheduler-controlled runs of the '
              'real threads (preemption-bounded DFS + random schedules) whose event traces are replayed on the Lean interleaving semantics.'),
-    'note': TB,
-    'technique': 'Lean 4 refinement proof (sequential) + trace co-simulation of real threads against the Lean single-access interleaving semantics with an ownership oracle',
+    'note': TB + ' Upper-level theorems hold for configurations satisfying CfgOk (class ids < 8, ordered policy, tree size < 2^19: every configuration of the repository; derived from elementary checks by CfgOk.of_checks); they depend on the C23 theorem (bv_decide axioms) through the lower search.',
+    'technique': 'Lean 4 refinement proof (all sequential histories) + trace co-simulation of real threads against the Lean single-access interleaving semantics with an ownership oracle',
 }
 CLAIMS['C02'] = {
-    'text': ('Theorems lower_put_refines / lower_getAt_refines / lower_get_refines / put_frees_exactly / get_allocates_exactly: for every '
-             'geometry, frame count and memory satisfying the lower invariant, Lower::put succeeds iff the ownership specification allows the '
-             'free and then frees exactly those frames (splitting a whole huge frame), Lower::get_at succeeds iff the block is entirely free, '
-             'the search allocates an entirely free aligned block or changes nothing; failures leave the whole memory unchanged; the invariant '
-             'is preserved; nothing panics.' + PART + 'the upper-level wrappers (tree/slot counters) are carried by the byte-level correspondence '
-             'with its ownership oracle, not yet by a theorem.'),
-    'note': TB + ' Depends on the C23 theorem (bv_decide axioms).',
-    'technique': 'Lean 4 refinement proof of the lower allocator against a frame-ownership specification + sequential differential with shadow ownership model',
+    'text': ('Theorems put_refines / get_refines / drain_keeps_allocation / change_keeps_allocation / history_keeps_invariant (+ the lower-level '
+             'lower_put_refines / lower_getAt_refines / lower_get_refines): in every state satisfying the upper invariant (established by Trees::new, '
+             'preserved by every call, hence every sequential history), LLFree::put succeeds iff the ownership specification allows the free, frees '
+             'exactly the block (splitting a whole huge frame on a partial free) and a refused free changes nothing; LLFree::get on every path '
+             '(own reservation with sync, search_and_reserve/search_best, reserve_or_steal, steal_global, steal/demote of other slots) returns only '
+             'blocks that were entirely free, the target if given, allocates exactly them, and every failure is Memory with the allocation state '
+             'unchanged; drains and tree changes never change the allocation state. Remaining assumption, carried by the correspondence: the lower '
+             'initialisation programs (free_all/reserve_all/recover) establish the lower invariant for every frame count.'),
+    'note': TB + ' Upper-level theorems hold for configurations satisfying CfgOk (class ids < 8, ordered policy, tree size < 2^19: every configuration of the repository; derived from elementary checks by CfgOk.of_checks); they depend on the C23 theorem (bv_decide axioms) through the lower search.',
+    'technique': 'Lean 4 refinement proof of the whole sequential allocator (Hoare-style program logic over the model, upper invariant with ghost state, induction over call histories) + byte-level sequential differential with shadow ownership model',
 }
 CLAIMS['C03'] = {
     'text': ('Theorem k1_spin_panics REFUTES the property for the unchanged code: a kernel-evaluated schedule of the interleaving semantics in '
              'which two threads free parts of one whole huge frame and the loser exhausts RETRIES and panics "Exceeding retries" (known finding K1, '
-             'replayed on the real threads by the co-simulation). Theorems seq_no_panic_lower / held_free_succeeds_seq: sequentially no lower-level '
-             'site panics and frees of held blocks succeed.' + PART + 'panic-freedom of the other sites under all interleavings is explored '
-             '(DFS/random schedules with panic capture and the held-free oracle), not proved.'),
-    'note': TB + ' Depends on the C23 theorem (bv_decide axioms).',
-    'technique': 'Lean 4: refutation by a kernel-checked schedule (decide) + sequential panic-freedom theorems; trace co-simulation with known-finding matching',
+             'replayed on the real threads by the co-simulation). Theorems seq_history_never_panics / held_free_succeeds_upper / seq_no_panic_lower: '
+             'sequentially no call of any history panics and every free of a held block succeeds.' + PART + 'panic-freedom of the other sites under all '
+             'interleavings is explored (DFS/random schedules with panic capture and the held-free oracle), not proved.'),
+    'note': TB + ' Upper-level theorems hold for configurations satisfying CfgOk (class ids < 8, ordered policy, tree size < 2^19: every configuration of the repository; derived from elementary checks by CfgOk.of_checks); they depend on the C23 theorem (bv_decide axioms) through the lower search.',
+    'technique': 'Lean 4: refutation by a kernel-checked schedule (decide) + sequential panic-freedom theorems over all histories; trace co-simulation with known-finding matching',
 }
 CLAIMS['C04'] = {
-    'text': ('Theorems huge_free_exact / huge_entirely_free_iff / stats_at_huge_exact: under the lower invariant the counter an entry reports is '
-             'the number of free frames of its huge frame in the allocation state, it is the full counter iff every frame is free, and '
-             'stats_at(frame, HUGE_ORDER) returns exactly these numbers without modifying anything.' + PART + 'fast count = exact - offline and '
-             'validate() need the upper invariant; the end-of-interleaving statement needs the concurrent invariants: both are carried by the '
-             'accounting oracle of the sequential and concurrent correspondence.'),
-    'note': TB + ' Depends on the C23 theorem (bv_decide axioms).',
-    'technique': 'Lean 4 theorems from the lower invariant + accounting oracle in the sequential differential and at quiescent ends of co-simulated interleavings',
+    'text': ('Theorems stats_exact / stats_at_tree_exact / stats_at_huge_exact / huge_free_exact / huge_entirely_free_iff / fast_counters_exact: under the '
+             'lower invariant stats() returns exactly the number of free frames, entirely free huge frames and entirely free trees of the allocation '
+             'state, the per-huge-frame and per-tree queries are exact and read-only; in every reachable state (upper invariant) the fast counters of a '
+             'tree (entry + reservations on it) equal its free frames unless hidden by Offline, and never exceed them (fast = exact - offline, tree by tree).'
+             + PART + 'that the programs tree_stats()/validate() add these counters up without panic, stats_at(order 0)/is_free, and the '
+             'end-of-interleaving statement are carried by the accounting oracle of the sequential and concurrent correspondence.'),
+    'note': TB + ' Upper-level theorems hold for configurations satisfying CfgOk (class ids < 8, ordered policy, tree size < 2^19: every configuration of the repository; derived from elementary checks by CfgOk.of_checks); they depend on the C23 theorem (bv_decide axioms) through the lower search.',
+    'technique': 'Lean 4 theorems from the lower and upper invariants + accounting oracle in the sequential differential and at quiescent ends of co-simulated interleavings',
 }
 CLAIMS['C05'] = {
     'text': ('Theorems recover_marker / recover_counter / recover_fixpoint_act about the per-entry decision of Lower::recover (the model of recover '
@@ -138,29 +141,35 @@ CLAIMS['C05'] = {
     'technique': 'Lean 4 theorems about the recovery decision logic + crash-point oracle inside the trace co-simulation + sequential differential of recover',
 }
 CLAIMS['C06'] = {
-    'text': ('Theorems free_all_sum / free_all_entry_le / free_all_full_iff / reserve_all_split: for every frame count and huge-frame size the '
-             'counters free_all writes never exceed a huge frame, add up to exactly the managed frames, are full iff the huge frame lies inside '
-             'the range; allocate-all marks exactly the huge frames inside the range.' + PART + 'that the init programs write these values and the '
-             'matching bitfields (establishing the lower invariant) is carried by the byte-level correspondence over boundary-dense frame counts '
-             'in 5 geometries with full exhaust/free cycles.'),
-    'note': TB,
-    'technique': 'Lean 4 arithmetic theorems (all frame counts) + init-cycle differential over boundary-dense frame counts',
+    'text': ('Theorems trees_new_establishes / free_all_sum / free_all_entry_le / free_all_full_iff / reserve_all_split / tiny_lower_inv: Trees::new over a lower '
+             'allocator satisfying its invariant and empty slots establishes the upper invariant with every tree counter exactly the free frames of its '
+             'tree (so a fresh allocator reports exactly the free managed frames and, by C02, lets exactly free frames be allocated; frames at or beyond '
+             'the managed count are allocated by the invariant); for every frame count the counters free_all writes add up to the managed frames, never '
+             'exceed a huge frame, allocate-all marks exactly the huge frames inside the range.' + PART + 'that the programs free_all/reserve_all '
+             'write these values and the matching bitfields (establishing the lower invariant) is carried by the byte-level correspondence over '
+             'boundary-dense frame counts in 5 geometries with full exhaust/free cycles.'),
+    'note': TB + ' Upper-level theorems hold for configurations satisfying CfgOk (class ids < 8, ordered policy, tree size < 2^19: every configuration of the repository; derived from elementary checks by CfgOk.of_checks); they depend on the C23 theorem (bv_decide axioms) through the lower search.',
+    'technique': 'Lean 4 theorems (Trees::new loop, arithmetic for all frame counts) + init-cycle differential over boundary-dense frame counts',
 }
 CLAIMS['C09'] = {
-    'text': ('Theorems lower_put_total / lower_getAt_total / lower_get_total / check_total: under the lower invariant no lower-level call panics '
-             '(roll-back sites, asserts, index bounds, retry exhaustion are unreachable sequentially) for any order, frame and geometry, and the '
-             'argument check is total.' + PART + 'upper-level counter arithmetic and construction are carried by the correspondence (every call under '
-             'catch_unwind in an overflow-checked build, model comparison of every answer).'),
-    'note': TB + ' Depends on the C23 theorem (bv_decide axioms).',
-    'technique': 'Lean 4 totality theorems for the lower allocator + sequential differential with panic capture',
+    'text': ('Theorems history_never_panics / history_outcome_ok (+ lower_*_total, check_total): from a lower allocator satisfying its invariant with '
+             'empty slots, Trees::new followed by ANY list of valid-parameter calls (get of any order/target/slot, put, drain, change_tree naming any '
+             'tree, stats) runs to completion in the sequential semantics with outcome ok: every panic site of lower.rs, bitfield.rs, trees.rs, '
+             'local.rs and llfree.rs on these paths (asserts, unwrap/expect, slice indexing, checked arithmetic, bit-field setter bounds) is an '
+             'explicit panic outcome of the model and is unreachable.' + PART + 'the lower initialisation programs for every frame count (incl. 0), '
+             'tree_stats/validate/stats_at(order 0)/is_free are carried by the correspondence (every call under catch_unwind in an overflow-checked build).'),
+    'note': TB + ' Upper-level theorems hold for configurations satisfying CfgOk (class ids < 8, ordered policy, tree size < 2^19: every configuration of the repository; derived from elementary checks by CfgOk.of_checks); they depend on the C23 theorem (bv_decide axioms) through the lower search.',
+    'technique': 'Lean 4 total-correctness proof over all call histories (no-panic = Outcome.ok in the sequential semantics) + sequential differential with panic capture',
 }
 CLAIMS['C10'] = {
-    'text': ('Theorems search_visits_all / searchIdx_nat / best_nonempty / steal_succeeds / steal_takes: the tree search order is a permutation '
-             'that reaches every tree for every start, a remembered candidate is returned, and stealing from an unreserved tree with enough '
-             'frames succeeds and takes exactly that many.' + PART + 'the composition through search_and_reserve / steal / get_fallback is carried by '
+    'text': ('Theorems get_after_drain_complete / usable_of_free / drain_clears / targeted_exact / search_visits_all / best_nonempty / steal_succeeds: drain() '
+             'never panics and leaves no reservation and no reserved tree; in a drained state a base-order get (any class, slot or none, both search '
+             'configurations) SUCCEEDS whenever some tree is unreserved with a positive counter - in particular whenever a frame outside hidden (offline) '
+             'trees is free, because there the counter is exactly the number of free frames; a targeted get succeeds only on an entirely free block and '
+             'returns it (C02).' + PART + 'the converse direction for targeted gets (a free block outside offline trees is always obtained) is carried by '
              'the drain oracle of the correspondence.'),
-    'note': TB,
-    'technique': 'Lean 4 theorems about the search order and tree steps + drain-probe differential with shadow oracle',
+    'note': TB + ' Upper-level theorems hold for configurations satisfying CfgOk (class ids < 8, ordered policy, tree size < 2^19: every configuration of the repository; derived from elementary checks by CfgOk.of_checks); they depend on the C23 theorem (bv_decide axioms) through the lower search.',
+    'technique': 'Lean 4 completeness proof of the tree search (progress lemma for search_best, visiting order, lower search completeness C12) + drain-probe differential with shadow oracle',
 }
 CLAIMS['C11'] = {
     'text': ('Theorems sync_exact / sync_boundary / sync_then_get: Tree::sync_steal succeeds iff the tree is reserved and holds at least the '
@@ -179,13 +188,14 @@ CLAIMS['C14'] = {
     'technique': 'Lean 4 induction over the tree table + sequential differential with partition oracle',
 }
 CLAIMS['C15'] = {
-    'text': ('Theorems change_only_matching / change_reserved_never / offline_succeeds / offline_free_tree / online_restores / online_nonempty_skips / '
-             'offline_blocks_steal / offline_blocks_reserve / offline_blocks_sync: a change touches only an unreserved tree that matches, Offline '
-             'sets the counter to 0, Online sets it to exactly the fetched lower count and only on a tree with counter 0, and a tree with counter 0 '
-             'is skipped by steal, reserve and sync.' + PART + 'allocator-level statements (which count is fetched, statistics) are carried by the '
-             'change-heavy differential with the offline oracle.'),
-    'note': TB + ' Model deviation recorded in DESIGN.md: Online reads the lower counters before the update closure.',
-    'technique': 'Lean 4 theorems about Tree::change and the tree steps + change-heavy sequential differential',
+    'text': ('Theorems change_tree_spec / offline_no_slot / change_only_matching / change_reserved_never / offline_succeeds / offline_free_tree / online_restores / '
+             'online_nonempty_skips / offline_blocks_steal / offline_blocks_reserve / offline_blocks_sync: change_tree (by id and by search), in every reachable '
+             'state, never panics, touches only one unreserved matching tree, keeps allocation state and invariant, a refused change changes nothing; Offline '
+             'leaves counter 0 (frames hidden from the fast count); a successful Online restores the counter to exactly the free frames of the tree; a tree '
+             'with counter 0 is refused by steal, reserve and sync and named by no slot.' + PART + 'the composed statement "no allocation returns a frame of an '
+             'offline tree for every history" is carried by the change-heavy differential with the offline oracle.'),
+    'note': TB + ' Upper-level theorems hold for configurations satisfying CfgOk (class ids < 8, ordered policy, tree size < 2^19: every configuration of the repository; derived from elementary checks by CfgOk.of_checks); they depend on the C23 theorem (bv_decide axioms) through the lower search.' + ' Model deviation recorded in DESIGN.md: Online reads the lower counters before the update closure.',
+    'technique': 'Lean 4 proof of change_tree against the upper invariant + theorems about the tree steps + change-heavy sequential differential',
 }
 CLAIMS['C21'] = {
     'text': ('Theorems solo_terminates / get_solo_terminates / put_solo_terminates / drain_solo_terminates / solo_step_bound_upd: from every '
